@@ -148,13 +148,23 @@ def base_files(rng, wd, impl, tier, small_only=False, variant="asan"):
     out.append(Base("zstd-large", f, data, [b""] + [SEP + p for p in parts]))
     f, data = mk_zstd(wd, parts[:3], dict_bytes=tdict, variant=variant)
     out.append(Base("zstd-large+zdict", f, data, [tdict] + [SEP + p for p in parts[:3]]))
+    # contents ending in (or consisting of) long runs of zero bytes: whole output blocks of zeros, also as the very last block
+    parts = [text(rng, 700), bytes(40000)]
+    f, data = mk_zstd(wd, parts, variant=variant)
+    out.append(Base("zstd-zerotail", f, data, [b""] + [SEP + p for p in parts]))
+    zparts = [rng.rbytes(100), bytes(33000)]
+    f, _ = zckfmt.build_file(zparts, ht=1, cht=1)
+    out.append(Base("none-zerotail", f, b"".join(zparts), [b""] + zparts))
+    zparts = [bytes(32768)]
+    f, _ = zckfmt.build_file(zparts, ht=1, cht=3)
+    out.append(Base("none-onezeroblock", f, b"".join(zparts), [b""] + zparts))
     n_auto = 2 if tier == "quick" else 8
     for f, data, _ in filegen.zstd_files(rng, n_auto, wd, variant):
         p = parse(f)
         if p and len(f) < 200000:
             out.append(Base("zstd-auto", f, data, None))
     for f, data, _ in filegen.nocomp_files(rng, 3 if tier == "quick" else 10):
-        if len(f) < 150000:
+        if len(f) < (40000 if tier == "quick" else 150000):     # the list-based model is slow on large uncompressed files
             out.append(Base("none-gen", f, data, None))
     return out
 
@@ -217,8 +227,9 @@ def mutants(rng, b, tier):
             m += rng.rbytes(rng.choice([1, 9]))
         out.append((kind + "@%d" % p, bytes(m), False))
     # truncation at every length (quick: every body length of these small files, sampled header lengths)
+    tstep = max(7, len(f) // (400 if quick else 4000))       # large bodies: a bounded number of truncation lengths
     for t in range(lead, len(f)):
-        if not quick or len(body) < 2500 or t % 7 == 0:
+        if len(body) < 2500 or (not quick and len(body) < 20000) or t % tstep == 0 or len(f) - t <= 3:
             out.append(("trunc@%d" % t, f[:t], False))
     for t in sorted(set(rng.randrange(lead) for _ in range(6 if quick else 60))):
         out.append(("trunc@%d" % t, f[:t], False))
@@ -436,7 +447,7 @@ def build_cases(rng, tier, wd, impl, variant="asan"):
         pats = patterns(rng, b, tier)
         for p in pats:
             items.append(("valid:%s" % b.kind, b.f, False, b.content, "F %s %s,q" % (b.f.hex(), p)))
-        if b.kind.endswith("large") or b.kind.endswith("large+zdict") or b.kind in ("zstd-auto", "none-gen"):
+        if b.kind.endswith("large") or b.kind.endswith("large+zdict") or b.kind in ("zstd-auto", "none-gen") or "zero" in b.kind:
             # larger files: a few mutants only
             ms = mutants(rng, b, "quick")
             ms = rng.sample(ms, min(len(ms), 25 if tier == "quick" else 120))
@@ -597,7 +608,7 @@ def run(res, tier, only_case=None):
         if base is not None:
             judge_requests(res, tag, line, io[kk], mo[kk], base, resealed, fb, errmap.get(kk))
     io, mo, lines = io[:len(items)], mo[:len(items)], lines[:len(items)]
-    tool_sample = []
+    tool_sample, tool_first, tool_seen = [], [], set()
     for k, ((tag, fb, resealed, orig, line), i, m) in enumerate(zip(items, io, mo)):
         res.evaluations += 1
         opened = i.startswith("open=1")
@@ -606,10 +617,14 @@ def run(res, tier, only_case=None):
         if opened:
             res.nontrivial.add(hashlib.sha256(fb).digest())
         judge_stream(res, "C02", tag, line, i, m, orig, resealed, errmap.get(k))
-        if only_case is None and (k % (40 if tier == "quick" else 25) == 0 or (okall and not tag.startswith("valid") and k % 3 == 0)):
+        first_valid = tag.startswith("valid") and hashlib.sha256(fb).digest() not in tool_seen
+        if first_valid:
+            tool_seen.add(hashlib.sha256(fb).digest())      # every valid base file goes through the tool once
+            tool_first.append((tag, fb, resealed, orig, vlib.split_model(m)[1], line))
+        elif only_case is None and (k % (40 if tier == "quick" else 25) == 0 or (okall and not tag.startswith("valid") and k % 3 == 0)):
             tool_sample.append((tag, fb, resealed, orig, vlib.split_model(m)[1], line))
     if only_case is None:
-        run_unzck(res, wd, tool_sample[:90 if tier == "quick" else 1500])
+        run_unzck(res, wd, tool_first + tool_sample[:90 if tier == "quick" else 1500])
     for k in (0, len(lines) // 3, len(lines) - 1):
         if lines:
             res.sample({"tag": items[k][0], "case": lines[k][:120] + "..", "impl": io[k][:200]})
